@@ -181,7 +181,7 @@ fn eval_explicit(case: &str) -> Out {
     let all_explicit = spec.ins.iter().all(|s| s.ea && s.ev);
     let pred_fail = if !all_explicit || expected == (verdict == "ok") { None }
         else if expected && spec.outs.iter().any(|o| o.value == 0 && unspendable(o)) {
-            Some("F13-zero-value-opreturn-rejected|a balanced explicit transaction with an explicit zero-value output on a provably unspendable script (OP_RETURN / fee) is rejected: ZeroValueCommitment is propagated instead of skipped (regression of repair b3b2d40)".to_string())
+            Some("F13-zero-value-opreturn-rejected|a balanced explicit transaction with an explicit zero-value output on a provably unspendable script (OP_RETURN, the empty fee script, or longer than MAX_SCRIPT_SIZE) is rejected instead of the output being skipped".to_string())
         } else { Some(format!("explicit-iff-violated|all-explicit transaction: property predicts {} but verify_tx_amt_proofs says {}", if expected { "accept" } else { "reject" }, verdict)) };
     Out { result: verdict, pred_fail }
 }
@@ -499,7 +499,7 @@ pub fn gen(rng: &mut ChaCha20Rng, n: usize, thorough: bool) -> Vec<Case> {
         // fully explicit spent outputs in most cases
         if k % 5 != 4 { for s in spec.ins.iter_mut() { s.ea = true; s.ev = true; s.sec = elements::TxOutSecrets::new(s.sec.asset, AssetBlindingFactor::zero(), s.sec.value, ValueBlindingFactor::zero()); } tags = vec!["all-explicit".into()]; } else { tags.push("explicit-tx-confidential-spent".into()); }
         let mut sl = spec.ins.len();
-        let variant = k % 9;
+        let variant = k % 11;
         match variant {
             0 | 1 => tags.push("balanced".into()),
             2 => { let j = rng.gen_range(0..spec.outs.len()); spec.outs[j].value += 1 + rng.gen_range(0..50); tags.push("unbalanced-output".into()); }
@@ -510,6 +510,9 @@ pub fn gen(rng: &mut ChaCha20Rng, n: usize, thorough: bool) -> Vec<Case> {
                    else { spec.outs.push(OutSpec { asset: spec.outs[0].asset, value: 0, script: vec![], nonce: NonceSpec::Null }); tags.push("zero-value-fee-added".into()); } }
             6 => { spec.outs.push(OutSpec { asset: spec.outs[0].asset, value: 0, script: raddr_script(rng), nonce: NonceSpec::Null }); tags.push("zero-value-spendable".into()); }
             7 => { sl = if rng.gen_bool(0.5) && sl > 0 { sl - 1 } else { sl + 1 }; tags.push("spent-length-mismatch".into()); }
+            // is_provably_unspendable's third arm: longer than MAX_SCRIPT_SIZE (10_000 bytes), not starting with OP_RETURN
+            9 => { let mut sc = vec![0x51u8; 10_001]; sc[1] = rng.gen_range(0x51..0x60); spec.outs.push(OutSpec { asset: spec.outs[0].asset, value: 0, script: sc, nonce: NonceSpec::Null }); tags.push("zero-value-script-10001".into()); }
+            10 => { let mut sc = vec![0x51u8; 10_000]; sc[1] = rng.gen_range(0x51..0x60); spec.outs.push(OutSpec { asset: spec.outs[0].asset, value: 0, script: sc, nonce: NonceSpec::Null }); tags.push("zero-value-script-10000".into()); }
             _ => { let j = rng.gen_range(0..spec.outs.len()); let a = spec.outs[j].asset; spec.outs[j].asset = rasset_id(rng); let _ = a; tags.push("asset-changed".into()); }
         }
         tags.push(format!("nin{}", spec.ins.len())); tags.push(format!("nout{}", spec.outs.len()));
